@@ -133,7 +133,9 @@ type streamEnveloper struct {
 	t wire.EnvelopeType
 }
 
-func (s streamEnveloper) MethodName() string              { return "" }
+// generated *_Result.MethodName() returns the bare method name (never the multiplexed request
+// name); responders must ignore it and echo the request's name.
+func (s streamEnveloper) MethodName() string              { return "bareMethod" }
 func (s streamEnveloper) EnvelopeType() wire.EnvelopeType { return s.t }
 func (s streamEnveloper) Encode(w stream.Writer) error    { return s.v.WriteStream(w) }
 
